@@ -255,7 +255,7 @@ PROPS = {
     ),
     "C07": dict(
         thm=["Bgpfu.Thm.C07", "Bgpfu.Thm.C05"],
-        ops=[("frame", ["only-close"]), ("sched", ["only-close"])],
+        ops=[("frame", ["only-close"]), ("sched", ["only-close"]), ("daemon", ["cfg=fixed", "only-streaks"])],
         level_text="Theorems: for every buffer content and every sequence of read results the receive loop never spins and "
                    "can only stay blocked while the stream is open; EOF / I/O error at any point yields an error, again on "
                    "every later call; the SSH pump exits on channel EOF and on channel closure and never spins. Real "
